@@ -147,7 +147,13 @@ def check(world, tier):
     # the numbering: counter starts at B (argument of the burst) and is advanced by wrapping_add(1) once per element
     burst_loops = set()
     for e in S.events:
-        if base_name(e) == "<std::collections::vec_deque::Iter<'a, T> as std::iter::Iterator>::next":
+        if base_name(e) in ("<std::collections::vec_deque::Iter<'a, T> as std::iter::Iterator>::next",
+                            "<std::iter::Enumerate<I> as std::iter::Iterator>::next"):
+            if base_name(e).startswith("<std::iter::Enumerate"):
+                sn = e.argsnap[0] if e.argsnap and isinstance(e.argsnap[0], dict) else {}
+                ov = sn.get(("$over",))
+                if not (ov is not None and ov[0] == "r" and ov[1] == wroot and tuple(ov[2]) == tuple(wpath) + tuple(fi_el)):
+                    continue
             lc = S.loops_containing(e.node)
             if lc:
                 burst_loops.add(lc[0])     # the innermost loop that advances the queue iterator
@@ -186,6 +192,8 @@ def check(world, tier):
                             incs.add(node)
                         else:
                             others.add(node)
+                if path == () and False:
+                    pass
                 if ps in counters and incs and not others:
                     once = not g.on_cycle_avoiding((fid, h), avoid_nodes=incs | (set(g.succ) - ln))
                     # not twice: from an increment the next increment is only reachable through the head
@@ -215,6 +223,24 @@ def check(world, tier):
                     inter = []
             b.ob(not inter, "burst-walk-repeated", "the walk over the window is itself inside another loop (%s): from the second pass on the same chunks go out "
                  "under block numbers that keep counting" % ", ".join(node_str(prog, x) for x in inter), sample={"loops between transfer loop and burst": len(inter)})
+            if not okc:
+                # numbering by position: block number == B + index (mod 2^16), index = the running count of `.enumerate()` over the queue
+                idx_syms = [sid for nm, sid in eng.sym_ids.items() if isinstance(nm, tuple) and nm and nm[0] == "phi" and len(nm) == 5 and nm[1] == fid and nm[2] == h
+                            and nm[4] and nm[4][-1] == "$enum"]
+                Bsyms = [sid for root_b in B for nm, sid in eng.sym_ids.items()
+                         if isinstance(nm, tuple) and nm and nm[0] == "phi" and len(nm) == 5 and nm[3] == root_b and nm[4] == ()]
+                for e2 in data_events:
+                    if e2.node not in ln:
+                        continue
+                    snap2 = arg_pointee(e2, 1) or {}
+                    bn2 = snap2.get((("v", vi_data), fnames.index("block_num")))
+                    if not (isinstance(bn2, tuple) and bn2[0] == "i"):
+                        continue
+                    mf = modform(eng, bn2[1])
+                    for ie in idx_syms:
+                        rest = mod_sub(mf, (0, {ie: 1}))
+                        if any(mod_equal(rest, modform(eng, lin.var(bp))) for bp in Bsyms):
+                            okc = True
             b.ob(okc, "burst-numbering", "DATA packets of a burst are not numbered B, B+1, ... (wrapping) with exactly one increment per element",
                  sample={"burst loop": node_str(prog, (fid, h)), "counter advanced by wrapping_add(1) once per element from B": okc})
     # ---------------------------------------------------------------- c FILL
